@@ -21,6 +21,8 @@ def _blocks():
         B['prose@%d' % ind] = [(sp(ind) + 'word words', 'other')]
         B['s1@%d' % ind] = [(sp(ind) + '>>> x%d = 1' % ind, 'prompt')]
     B['blank'] = [('', 'blank')]
+    # an example of two prompt lines, 4 columns deeper than the others (legal directly after a want or a blank line)
+    B['s2p@8'] = [(sp(8) + '>>> p = 1', 'prompt'), (sp(8) + '>>> q = 2', 'prompt')]
     B['tag@4'] = [(sp(4) + 'Example:', 'other')]
     B['s2@4'] = [(sp(4) + '>>> y = [1,', 'prompt'), (sp(4) + '>>>      2]', 'prompt')]
     B['s2d@4'] = [(sp(4) + '>>> for i in range(2):', 'prompt'), (sp(4) + '...     print(i)', 'cont')]
@@ -48,7 +50,7 @@ def _blocks():
 
 BLOCKS = _blocks()
 NAMES = ['s1@4', 'w1@4', 'blank', 'prose@4', 'prose@0', 'prose@8', 'tag@4', 's1@0', 's1@8', 's2@4', 's2d@4',
-         's2dt@4', 'sstr@4', 'w2@4', 'w1@8', 'wdots@4', 'tabs1', 'tabw', 's2u@4', 'sstrd@4', 'w1t@4', 'wdots2@4', 'sstrp@4']
+         's2dt@4', 'sstr@4', 'w2@4', 'w1@8', 'wdots@4', 'tabs1', 'tabw', 's2u@4', 'sstrd@4', 'w1t@4', 'wdots2@4', 'sstrp@4', 's2p@8']
 assert set(NAMES) == set(BLOCKS)
 DEFAULT = {'s1@4', 'w1@4', 'blank', 'prose@4'}
 
